@@ -1,5 +1,6 @@
 """C11 — radix output is the canonical numeral and round-trips with parsing."""
 from .common import *
+import os
 from .ops_c11 import OPS
 
 PROP, BIN, RUNMOD, RUNFN = "C11", "c11", "RunC11", "run_C11"
@@ -97,10 +98,47 @@ def structured_values(rng, w, n, r, count):
     return out
 
 
+SWEEP = True      # thorough tier: the binary is built with the cargo feature `sweep` (tools/ops/C11.ops: @sweep)
+
+
+def sweep_cases(rng):
+    """EVERY width 8, 16, ..., 8192 bits (u8 digits, N = 1..=1024).  The model of the printing code is cubic in the width,
+    so: up to 2400 bits, MAX / 10^(L-1) / MIN / a random value against the model (radix 10 and a rotating radix); above, at
+    every width the implementation-side round trip parse(print(x)) == x of MAX and of a random value (the parser is compared
+    with its model at every width by C10's sweep) and at every 8th width MAX in radix 10 against the model."""
+    out = []
+    std = {n for (w, n) in CONFIGS_ALL if w == 8}
+    others = [3, 5, 6, 7, 9, 11, 12, 13, 14, 15, 17, 19, 20, 21, 23, 24, 26, 29, 30, 31, 33, 35, 36]
+    for n in range(1, 1025):
+        if n in std:
+            continue
+        bits = 8 * n
+        M = 1 << bits
+        L = len(str(M - 1))
+        rv = rng.bits(bits) | (1 << (bits - 1))
+        if n <= 300:
+            r2 = others[n % len(others)]
+            for v, r in ((M - 1, 10), (10 ** (L - 1), 10), (10 ** (L - 1) - 1, 10), (rv, 10), (M - 1, r2), (rv, r2)):
+                out.append(fmt_line("U.to_str_radix", 8, n, [v, r], "LZ"))
+            out.append(fmt_line("I.to_str_radix", 8, n, [M >> 1, 10], "LZ"))
+            out.append(fmt_line("I.to_str_radix", 8, n, [(M >> 1) - 1, r2], "LZ"))
+            out.append(fmt_line("U.to_radix_le", 8, n, [M - 1, 10], "LZ"))
+            out.append(fmt_line("U.to_radix_le", 8, n, [rv, 200 + n % 57], "LZ"))
+        elif n % 8 == 0:
+            out.append(fmt_line("U.to_str_radix", 8, n, [M - 1, 10], "LZ"))
+        for v, r in ((M - 1, 10), (rv, 10), (10 ** (L - 1), 10), (rv, others[n % len(others)])):
+            out.append(fmt_line("U.roundtrip_str", 8, n, [v, r], "LZ"))
+    return out
+
+
 def gen(rng, tier):
     thorough = tier == "thorough"
     configs = CONFIGS_ALL if thorough else CONFIGS_QUICK
     out = []
+    if thorough:
+        out += sweep_cases(rng)
+        if os.environ.get("VERIF_ONLY_SWEEP") == "1":       # development knob: the width sweep alone
+            return out
     turn = 0
     for (w, n) in configs:
         bits = w * n
